@@ -174,6 +174,13 @@ def corpus():
         p.update(flags=0, t=5, src=("DTN", 1, b"//n/a"))
         out.append(_line(dict(p=p, cs=[dict(type=t, num=3, flags=0, crc=("N",), data=("UNK", b"")), dict(type=real, num=2, flags=0, crc=("N",), data=d),
                                        dict(type=1, num=1, flags=0, crc=("N",), data=("DATA", b"x"))])))
+    # a source whose dtn NAME is the text "none" ([1,"none"]) is not the null endpoint [1,0]: the rules for anonymous bundles do not apply
+    for fl, bfl in ((0, 0x02), (0x4000, 0), (0x20000, 0x02), (0x40, 0x12), (0x04, 0x02)):
+        for name in (b"none", b"//none/x", b"none/"):
+            p = genb.rnd_primary(rng, crc_kind=0, fragment=False)
+            p.update(flags=fl, t=5, src=("DTN", 1, name))
+            out.append(_line(dict(p=p, cs=[dict(type=10, num=2, flags=bfl, crc=("N",), data=("HOP", 9, 1)),
+                                           dict(type=1, num=1, flags=bfl & 0x02, crc=("N",), data=("DATA", b"x"))])))
     for t in (257, 65537):                                         # "payload" alias does not make a payload block
         p = genb.rnd_primary(rng, crc_kind=0, fragment=False)
         p.update(flags=0, t=5, src=("DTN", 1, b"//n/a"))
